@@ -97,6 +97,21 @@ def check_names(vals):
         ns2.bytes = R.name_bytes(v)
         if ns2.value != exp or list(ns2.bytes) != eb:
             return n, ("name-bytes-setter", "n = Name(); n.bytes = %r gives value 0x%016X, expected 0x%016X" % (R.name_bytes(v), ns2.value, exp))
+        # a field assigned through its setter AFTER value / bytes have been read once shows in value and bytes
+        # (every second value only: nine assignments each)
+        if n % 2 == 0:
+            nq = Name(value=v)
+            _ = nq.value, nq.bytes
+            cur = dict(ef)
+            for attr in FIELD_KW:
+                lo_w = [(a, lo, w) for (a, lo, w) in R.NAME_FIELDS if a == attr][0]
+                newv = (cur[attr] + 1) % (1 << lo_w[2])
+                setattr(nq, attr, newv)
+                cur[attr] = newv
+                want = R.name_value(cur)
+                if nq.value != want or list(nq.bytes) != R.name_bytes(want):
+                    return n, ("name-field-setter", "Name(value=0x%016X): after value/bytes were read and %s was set to %d through its "
+                               "setter, value is 0x%016X (expected 0x%016X), bytes %r" % (v, attr, newv, nq.value, want, list(nq.bytes)))
         nf = Name(**{k: ef[k] for k in FIELD_KW})
         if nf.value != exp or list(nf.bytes) != eb:
             return n, ("name-from-fields", "Name(**%r).value == 0x%016X, expected 0x%016X" % ({k: ef[k] for k in FIELD_KW}, nf.value, exp))
